@@ -94,6 +94,9 @@ type bstate struct {
 	pre   map[ssa.Value]bfact // int parameters: what every call site guarantees (shared, never modified)
 	rel   map[relKey]int      // a - *cell <= d  (a: integer SSA value, cell: *int cell)
 	cdel  map[ssa.Value]int   // *cell - (its value at function entry) >= d  (parameter cells)
+	// cond: what is known when a boolean phi (a flag variable, the result of a short-circuit expression) is
+	// true / false: the facts of the incoming edges that can give it that value (snapshots, never modified)
+	cond map[*ssa.Phi]*[2]*bstate
 	flag  map[string]bool     // recv.<path> (a bool field) has this value
 }
 
@@ -135,6 +138,12 @@ func (s *bstate) clone() *bstate {
 	}
 	for k, v := range s.cdel {
 		n.cdel[k] = v
+	}
+	if len(s.cond) > 0 {
+		n.cond = make(map[*ssa.Phi]*[2]*bstate, len(s.cond))
+		for k, v := range s.cond {
+			n.cond[k] = v
+		}
 	}
 	return n
 }
@@ -234,6 +243,34 @@ func joinB(a, b *bstate) *bstate {
 			}
 			r.cdel[k] = v
 		}
+	}
+	for p, x := range a.cond {
+		y, ok := b.cond[p]
+		if !ok {
+			continue
+		}
+		if x == y {
+			if r.cond == nil {
+				r.cond = map[*ssa.Phi]*[2]*bstate{}
+			}
+			r.cond[p] = x
+			continue
+		}
+		var m [2]*bstate
+		for t := 0; t < 2; t++ {
+			switch {
+			case x[t] != nil && y[t] != nil:
+				m[t] = joinB(x[t], y[t])
+			case x[t] != nil:
+				m[t] = x[t]
+			default:
+				m[t] = y[t]
+			}
+		}
+		if r.cond == nil {
+			r.cond = map[*ssa.Phi]*[2]*bstate{}
+		}
+		r.cond[p] = &m
 	}
 	return r
 }
@@ -370,6 +407,7 @@ func (s *bstate) chunkModified() {
 	s.slen = map[ssa.Value]int{}
 	s.ge = map[ssa.Value]bool{}
 	s.cur = map[ssa.Value]bool{}
+	s.cond = nil
 }
 
 // ---------------------------------------------------------------------------------------------
@@ -442,6 +480,7 @@ type bndEngine struct {
 	final    bool
 	rounds   int
 	giveUp   []string
+	stable   bool
 	noPre    bool
 	roots    map[*ssa.Function]map[string]bool
 	siteIdx  map[siteKey]int
@@ -1114,6 +1153,13 @@ func (e *bndEngine) refine(v ssa.Value, g bfact, st *bstate, depth int) {
 	}
 }
 
+// applyCondWith: applyCond on a snapshot that has no cond map of its own
+func (e *bndEngine) applyCondWith(cond ssa.Value, truth bool, st *bstate, conds map[*ssa.Phi]*[2]*bstate) {
+	st.cond = conds
+	e.applyCond(cond, truth, st, 0)
+	st.cond = nil
+}
+
 // applyCond: cond has the given truth value
 func (e *bndEngine) applyCond(cond ssa.Value, truth bool, st *bstate, depth int) {
 	if depth > 4 {
@@ -1226,6 +1272,62 @@ func (e *bndEngine) applyCond(cond ssa.Value, truth bool, st *bstate, depth int)
 	case *ssa.Extract:
 		if call, ok := x.Tuple.(*ssa.Call); ok {
 			e.applyImpl(call, x.Index, truth, st)
+		}
+	case *ssa.Phi:
+		c, ok := st.cond[x]
+		if !ok {
+			return
+		}
+		t := 0
+		if truth {
+			t = 1
+		}
+		snap := c[t]
+		if snap == nil {
+			if c[1-t] != nil {
+				st.reach = false // no incoming edge can give the flag this value
+			}
+			return
+		}
+		// only facts about values that cannot have been redefined since the flag was computed
+		stable := func(v ssa.Value) bool {
+			switch y := v.(type) {
+			case *ssa.Parameter, *ssa.Const:
+				return true
+			case *ssa.Phi:
+				return y.Block() == x.Block() || y.Block().Dominates(x.Block())
+			case ssa.Instruction:
+				return y.Block() != x.Block() && y.Block().Dominates(x.Block())
+			}
+			return false
+		}
+		if snap.L > st.L {
+			st.L = snap.L
+		}
+		for v, f := range snap.val {
+			if stable(v) {
+				e.refine(v, f, st, 0)
+			}
+		}
+		for v := range snap.ge {
+			if stable(v) {
+				st.ge[v] = true
+			}
+		}
+		for v, k := range snap.eqc {
+			if !stable(v) {
+				continue
+			}
+			if old, known := st.eqc[v]; known && old != k {
+				st.reach = false
+			}
+			st.eqc[v] = k
+		}
+		for k, v := range snap.flag {
+			if old, known := st.flag[k]; known && old == v {
+				continue
+			}
+			_ = v // bool-field facts may have been voided by a store since: not imported
 		}
 	}
 }
@@ -1727,8 +1829,12 @@ func (e *bndEngine) transferCall(f *ssa.Function, call *ssa.Call, st *bstate, po
 			if !isIntPtr(a.Type()) {
 				continue
 			}
+			grownLB := -bInf // the cell only grows in the callee: its old lower bound (plus the growth) survives
 			if d, ok := 0, false; s != nil && s.set {
 				if d, ok = s.cdel[j]; ok {
+					if old, had := st.cell[a]; had && old.lb > -bInf {
+						grownLB = old.lb + d
+					}
 					e.cellMoved(a, d, true, st)
 				} else {
 					e.cellMoved(a, 0, false, st)
@@ -1743,9 +1849,16 @@ func (e *bndEngine) transferCall(f *ssa.Function, call *ssa.Call, st *bstate, po
 			}
 			if s != nil && s.set {
 				if cf, ok := s.cell[j]; ok {
+					if grownLB > cf.lb {
+						cf.lb = grownLB
+					}
 					st.cell[a] = cf
 					continue
 				}
+			}
+			if grownLB > -bInf {
+				st.cell[a] = bfact{bInf, grownLB}
+				continue
 			}
 			delete(st.cell, a)
 		}
@@ -1932,6 +2045,42 @@ func (e *bndEngine) edgeState(b *ssa.BasicBlock, out *bstate, si int) *bstate {
 	}
 	for _, r := range rels {
 		st.rel[r.k] = r.d
+	}
+	// boolean phis: remember what holds on this edge for the value it contributes
+	for _, ins := range succ.Instrs {
+		phi, ok := ins.(*ssa.Phi)
+		if !ok {
+			break
+		}
+		if !isBoolType(phi.Type()) || pi < 0 || pi >= len(phi.Edges) {
+			continue
+		}
+		var c [2]*bstate
+		op := phi.Edges[pi]
+		if k, isC := op.(*ssa.Const); isC && k.Value != nil && k.Value.Kind() == constant.Bool {
+			sn := st.clone()
+			sn.cond = nil
+			if constant.BoolVal(k.Value) {
+				c[1] = sn
+			} else {
+				c[0] = sn
+			}
+		} else {
+			for t := 0; t < 2; t++ {
+				sn := st.clone()
+				sn.cond = nil
+				saved := st.cond
+				_ = saved
+				e.applyCondWith(op, t == 1, sn, st.cond)
+				if sn.reach {
+					c[t] = sn
+				}
+			}
+		}
+		if st.cond == nil {
+			st.cond = map[*ssa.Phi]*[2]*bstate{}
+		}
+		st.cond[phi] = &c
 	}
 	for _, x := range facts {
 		delete(st.val, x.phi)
